@@ -8,6 +8,10 @@ when the test point disagrees, the +eps/-eps test values are paired position by
 position with the '>'/'<' sign conditions and every case carries them; merge's
 two tables; linear_symbolic / symbolic_bounds pair rows with their right-hand
 sides and comparators.
+Round 3: every merge of the lines of ONE system uses the exclusive (conjunction)
+table; the zeros list is not reordered between building the test values and
+pairing the sign conditions; no function of symbolic / _symbolic writes module-
+level state.
 NOT decided: everything that depends on sympy and on the sufficiency of random
 test points - the core of the property.
 """
@@ -102,6 +106,26 @@ def flip_iff_test_point_disagrees(ctx):
     we = T.term(ast.parse("new.extend(z.replace('=', i) for (z, i) in zip(zro, sign))", mode='eval').body)
     ctx.check(bool(ext) and t(ext[0]) == we, '_simplify1#conditions', 'each case carries its sign conditions z <sign> 0-point',
               'cases no longer carry their sign conditions', f, ext[0] if ext else f.node)
+    # position by position also means: the list of zeros is the same list, in the same order, when the test values are built
+    # (it.product consumes its argument at once), when the signs are built and when the conditions are zipped to it - no
+    # statement between the first of those and the last reorders, extends or rebinds it
+    users = [st for st in stmts_of(f.node) if st is tv or st is sg or (ext and st is enclosing_stmt(ext[0]))]
+    if users:
+        zname = 'zro'
+        lo, hi = min(u.lineno for u in users), max(u.lineno for u in users)
+        muts = []
+        for st in stmts_of(f.node):
+            if not (lo < st.lineno < hi) or st in users:
+                continue
+            for n in ast.walk(st):
+                if isinstance(n, ast.Call) and isinstance(n.func, ast.Attribute) and isinstance(n.func.value, ast.Name) and n.func.value.id == zname and \
+                        n.func.attr in ('sort', 'reverse', 'append', 'extend', 'insert', 'pop', 'remove', 'clear'):
+                    muts.append(st)
+                if isinstance(n, ast.Name) and n.id == zname and isinstance(n.ctx, (ast.Store, ast.Del)):
+                    muts.append(st)
+        ctx.check(not muts, '_simplify1#same-zeros', 'the zeros are not reordered / rebound between building the test values and pairing the conditions',
+                  'the list of zeros is changed (%s) after the test values were built from it and before the sign conditions are paired with it: test point k no longer belongs to condition k'
+                  % (norm_stmt(muts[0])[:80] if muts else ''), f, muts[0] if muts else tv)
     lp = [n for n in walk_no_nested(f.node) if isinstance(n, ast.For) and unparse(n.iter) == 'signs']
     ctx.check(bool(lp) and unparse(lp[0].target) == 'sign', '_simplify1#loop', 'one case per sign combination', 'case loop changed', f, lp[0] if lp else f.node)
 
@@ -211,3 +235,64 @@ def systems_are_merged_as_conjunctions(ctx):
                       '%s merges the lines of a system with the table of alternatives (inclusive=%s): a pair such as x0 >= 2, x0 <= 2 is dropped instead of becoming x0 = 2, so the result holds at points where the input does not'
                       % (fi.qualname, unparse(v) if v is not None else 'True by default'), fi, enclosing_stmt(c))
     ctx.need(n >= 2, 'expected >= 2 calls of merge in mystic.symbolic, found %d' % n)
+
+
+def _module_state_writes(minfo):
+    """[(function, global name, node)]: module-level mutable containers of a module that one of its functions writes into
+    (item store, mutator method call, `global` rebinding) - state that survives from one call to the next"""
+    tops = {}
+    for st in minfo.tree.body:
+        if isinstance(st, ast.Assign) and len(st.targets) == 1 and isinstance(st.targets[0], ast.Name):
+            v = st.value
+            if isinstance(v, (ast.Dict, ast.List, ast.Set)) or (isinstance(v, ast.Call) and isinstance(v.func, ast.Name) and v.func.id in ('dict', 'list', 'set', 'defaultdict', 'OrderedDict')):
+                tops[st.targets[0].id] = st
+    out = []
+    for q, fi in sorted(minfo.funcs.items()):
+        local = set(a.arg for a in fi.node.args.args)
+        for n in walk_no_nested(fi.node):
+            if isinstance(n, ast.Name) and isinstance(n.ctx, ast.Store):
+                local.add(n.id)
+        for n in walk_no_nested(fi.node):
+            if isinstance(n, ast.Global):
+                for nm in n.names:
+                    out.append((fi, nm, n))
+            base = None
+            if isinstance(n, ast.Subscript) and isinstance(n.ctx, (ast.Store, ast.Del)):
+                base = n.value
+            elif isinstance(n, ast.Call) and isinstance(n.func, ast.Attribute) and n.func.attr in ('update', 'setdefault', 'append', 'extend', 'add', 'pop', 'clear', 'insert', 'remove', '__setitem__'):
+                base = n.func.value
+            while isinstance(base, ast.Subscript):
+                base = base.value
+            if isinstance(base, ast.Name) and base.id in tops and base.id not in local:
+                # a name of an enclosing function shadows the module-level one
+                p = fi.parent
+                shadow = False
+                while p is not None:
+                    if any(isinstance(x, ast.Name) and x.id == base.id and isinstance(x.ctx, ast.Store) for x in walk_no_nested(p.node)):
+                        shadow = True
+                    p = p.parent
+                if not shadow:
+                    out.append((fi, base.id, n))
+    return out
+
+
+@rule('C12.g', min_instances=2)
+def simplification_keeps_no_state_between_calls(ctx):
+    """simplify / solve and everything else in mystic.symbolic and mystic._symbolic are functions of their arguments: no function writes into a module-level container or rebinds a global (a memo keyed on the equation text would hand back the result computed for other `locals` constants, i.e. a system with other coefficients)"""
+    import types
+    probe = types.SimpleNamespace(tree=ast.parse('_memo = {}\ndef simplify(eqn):\n    if eqn not in _memo:\n        _memo[eqn] = eqn\n    return _memo[eqn]\n'), funcs={})
+    pf = types.SimpleNamespace(node=probe.tree.body[1], parent=None)
+    probe.funcs = {'simplify': pf}
+    for n in ast.walk(pf.node):
+        for c in ast.iter_child_nodes(n):
+            c._parent = n
+    ctx.need(len(_module_state_writes(probe)) == 1, 'module-state detector lost its positive control')
+    for mname in ('mystic.symbolic', 'mystic._symbolic'):
+        m = ctx.model.modules[mname]
+        found = _module_state_writes(m)
+        for fi, nm, node in found:
+            ctx.touch(fi)
+            ctx.bad('%s#module-state[%s]' % (fi.qualname, nm), '%s writes into the module-level `%s`: the result of a later call depends on earlier calls (a cache that ignores part of the input returns the simplification of a different system)'
+                    % (fi.qualname, nm), fi, enclosing_stmt(node) or fi.node)
+        if not found:
+            ctx.ok(mname + '#module-state', 'no function of %s writes module-level state (%d functions)' % (mname, len(m.funcs)), next(iter(m.funcs.values())), m.tree)
